@@ -29,9 +29,14 @@ class Hang(BaseException):
     """The provider would block forever / livelock (BaseException: no library handler eats it)."""
 
 
+# what socket.setdefaulttimeout() last set: process-wide, inherited by every socket created afterwards
+_DEFAULT_TIMEOUT = [None]
+
+
 class SimSocket(object):
     def __init__(self, sim):
         self.sim = sim
+        self.timeout = _DEFAULT_TIMEOUT[0]
         self.closed = False
         self.segments = collections.deque()
         self.peer_closed = False
@@ -81,6 +86,14 @@ class SimSocket(object):
             self.segments.clear()
             self.sim.log.append(('send-failed', len(data)))
             raise ConnectionResetError(104, 'Connection reset by peer')
+        if self.sim.stall_write is not None and self.nsends == self.sim.stall_write and not self.sim.artim_running():
+            # the peer does not read for a while (it is busy; TCP flow control makes this write wait).  A blocking
+            # socket just waits; a socket left in time-out mode gives up
+            self.sim.now += self.sim.stall_seconds
+            self.sim.log.append(('stalled', self.sim.stall_seconds))
+            if self.timeout is not None and self.timeout < self.sim.stall_seconds:
+                self.sim.log.append(('send-timed-out', len(data)))
+                raise TimeoutError('timed out')
         self.nsends += 1
         self.sim.log.append(('send', bytes(data)))
 
@@ -99,7 +112,13 @@ class SimSocket(object):
         pass
 
     def settimeout(self, t):
-        pass
+        self.timeout = t
+
+    def gettimeout(self):
+        return self.timeout
+
+    def setblocking(self, flag):
+        self.timeout = None if flag else 0.0
 
     def setsockopt(self, *a):
         pass
@@ -109,13 +128,20 @@ class _FakeSocketModule(object):
     AF_INET = 2
     SOCK_STREAM = 1
     error = OSError
-    timeout = OSError
+    timeout = TimeoutError
 
     def __init__(self, sim):
         self._sim = sim
 
     def socket(self, *a, **kw):
+        self._sim.sock.timeout = _DEFAULT_TIMEOUT[0]
         return self._sim.sock
+
+    def setdefaulttimeout(self, t):
+        _DEFAULT_TIMEOUT[0] = t
+
+    def getdefaulttimeout(self):
+        return _DEFAULT_TIMEOUT[0]
 
 
 class _FakeSelect(object):
@@ -198,8 +224,10 @@ class Sim(object):
     START_TIME = 1000.0
 
     def __init__(self, role, actions, max_pdu=65536, budget=20000, store_in_file=frozenset(),
-                 get_file_cb=None, accepted_contexts=None, write_fault=None):
+                 get_file_cb=None, accepted_contexts=None, write_fault=None, stall_write=None, stall_seconds=11.5):
         self.role = role
+        self.stall_write = stall_write        # index of the write during which the peer pauses reading
+        self.stall_seconds = stall_seconds
         self.write_fault = write_fault    # index of the first write on the transport that fails (None: never)
         self.actions = list(actions)
         self.next = 0
@@ -401,6 +429,10 @@ class Sim(object):
     # -- views -----------------------------------------------------------------------------
     def wire(self):
         return b''.join(e[1] for e in self.log if e[0] == 'send')
+
+    def artim_running(self):
+        p = self.provider
+        return p is not None and p.timer._start_time is not None
 
     def indications(self):
         return [e[1] for e in self.log if e[0] == 'ind']
